@@ -1,6 +1,8 @@
 import Ptn.C16.TreeLemmas
 import Ptn.C16.TtndoTrace
 import Ptn.C16.TtndoTop
+import Ptn.C16.Value
+import Ptn.C16.ValueDemo
 /-! Property theorems for C16. Only property theorems and non-vacuity examples live here. -/
 namespace Ptn.C16
 
@@ -190,5 +192,126 @@ example : Ttndo.ttndoTtnoExpectationValue (Ttndo.ttndoNetK (Ttndo.ketTree (.node
 
 example : ∀ e ∈ Ptn.C04.Tree.info none (Ttndo.ketTree (.node 0 [.node 1 [], .node 2 []])),
     ((fun k => if k = 1 then [5, 3] else []) e.1).Perm e.2.2 := by decide
+
+/-! ## Value level: what the records of `trace_graph` and `ttndo_ttno_graph` evaluate to
+
+`Ptn/Common/Einsum*.lean`: a tensor is a function of an index assignment, `sumPairs dim ps f` sums `f` over one
+common index per pair of `ps`, `Expr` is a nesting of `tensordot` calls and `Expr.eval` evaluates it the way the
+program does.  The hypotheses are bundled in `Ttndo.TraceProgram`, `Ttndo.TtnoProgram`, `Ttndo.PaddedRoot`
+(`Value.lean`). -/
+
+open Ptn.C04 Ptn.Ein in
+/-- **`trace_ttndo` computes `Σ_{a,b} root[a,b] · Σ_phys ψ_a(phys) · ψ'_b(phys)` (value level).**  For every
+state tree with distinct identifiers the routine returns a closed tensor with some record `binds`
+(`trace_graph`), and over every commutative semiring, for all dimensions: EVERY strongly well-formed contraction
+program `e` with that record whose leaves are the root tensor `rv` and the tensors of the two copies — in
+particular the sequence of `tensordot` calls the routine performs — evaluates to the sum, over the two root-bond
+indices, of the root tensor times the sum over one common index per physical pair of the product of the two dense
+vectors `K` (ket copy) and `B` (bra copy), each ANY well-formed contraction of its own network over its own
+bonds. -/
+theorem trace_value {R : Type} [CommSemiring R] (t : Ptn.C04.Tree) (hnd : t.ids.Nodup) :
+    ∃ binds, Ttndo.traceTtndo (Ttndo.ttndoNetK (Ttndo.ketTree t)) = some ⟨[], binds⟩ ∧
+      ∀ (dim : Leg → Nat) (e K B : Expr Leg R) (rv : Asg Leg → R),
+        Ttndo.TraceProgram (Ttndo.ketTree t) binds e K B rv →
+        ∀ σ, e.eval dim σ = sumPairs dim (Ttndo.rootPairs (Ttndo.ketTree t)) (fun τ => rv τ *
+          sumPairs dim (Ttndo.physPairs (Ttndo.ketTree t)) (fun ρ => K.eval dim ρ * B.eval dim ρ) τ) σ := by
+  obtain ⟨binds, hrun, hb⟩ := trace_graph t hnd
+  exact ⟨binds, hrun, fun dim e K B rv h σ => h.value hb dim σ⟩
+
+open Ptn.C04 Ptn.Ein in
+/-- **`trace()` of the TTNDO of `from_ttns` is `Σ_phys ψ(phys) · ψ'(phys)` for every root bond dimension ≥ 1.**
+With the root tensor `eye(d).reshape(d, d, 1)` and the padded root bond (both dense vectors vanish off index 0 of
+their root-bond leg, `padded_root_index`) every program with the record of `trace_ttndo` evaluates to the sum over
+the physical indices of the product of the two dense vectors at root-bond index 0 — with `ψ'` the conjugated copy
+this is `<psi|psi>`.  No hypothesis relates the two root-leg dimensions to each other or bounds them. -/
+theorem trace_value_padded_root {R : Type} [CommSemiring R] (t : Ptn.C04.Tree) (hnd : t.ids.Nodup) :
+    ∃ binds, Ttndo.traceTtndo (Ttndo.ttndoNetK (Ttndo.ketTree t)) = some ⟨[], binds⟩ ∧
+      ∀ (dim : Leg → Nat) (e K B : Expr Leg R),
+        Ttndo.TraceProgram (Ttndo.ketTree t) binds e K B Ttndo.eyeRoot →
+        Ttndo.PaddedRoot dim (Ttndo.ketTree t) K B →
+        ∀ σ, e.eval dim σ =
+          sumPairs dim (Ttndo.physPairs (Ttndo.ketTree t)) (fun ρ => K.eval dim ρ * B.eval dim ρ)
+            (upd (upd σ (Leg.gKet (Ttndo.ketTree t).id 0) 0) (Leg.gBra (Ttndo.ketTree t).id 0) 0) := by
+  obtain ⟨binds, hrun, hb⟩ := trace_graph t hnd
+  exact ⟨binds, hrun, fun dim e K B h hp σ => h.value_padded hb dim hp σ⟩
+
+open Ptn.C04 Ptn.Ein Ttndo.Demo in
+/-- non-vacuity: on the state tree `0 — 1` the `tensordot` calls of `trace_ttndo` (block of the leaf, root copy,
+root tensor), integer node tensors reading all their legs and the padded root bond of dimension 3 satisfy every
+hypothesis; the record is the one the model produces -/
+example : Ttndo.traceTtndo (Ttndo.ttndoNetK (Ttndo.ketTree st)) = some ⟨[], trBinds⟩ ∧
+    Ttndo.TraceProgram (Ttndo.ketTree st) trBinds trProg K B Ttndo.eyeRoot ∧
+    Ttndo.PaddedRoot dim (Ttndo.ketTree st) K B :=
+  ⟨trace_run, trace_hyps, padded⟩
+
+open Ptn.C04 Ptn.Ein Ttndo.Demo in
+/-- … and both sides of the conclusion are the integer 622 -/
+example : trProg.eval dim (fun _ => 0) = 622 ∧
+    sumPairs dim (Ttndo.physPairs (Ttndo.ketTree st)) (fun ρ => K.eval dim ρ * B.eval dim ρ) (fun _ => 0) = 622 := by
+  decide
+
+open Ptn.C04 Ptn.Ein in
+/-- **`ttndo_ttno_expectation_value` computes `Σ root · Σ_out (Σ_in ψ · O) · ψ'` (value level).**  For every
+state tree and every TTNO on it (independent child orders) the routine returns a closed tensor with some record
+`binds` (`ttndo_ttno_graph`, which fixes the pairs only as UNORDERED pairs); for all dimensions that agree on the
+two legs of every pair of the specification graph (NumPy rejects anything else) EVERY strongly well-formed
+program with that record over the root tensor and the tensors of the three layers evaluates to: the root tensor
+times — the operator's INPUT legs summed against the ket copy's physical legs, its OUTPUT legs against the bra
+copy's — the sandwich of the dense operator `O` between the dense vectors `K` and `B`. -/
+theorem ttndo_ttno_value {R : Type} [CommSemiring R] (t : Ptn.C04.Tree) (hnd : t.ids.Nodup)
+    (opKids : Nat → List Nat)
+    (hperm : ∀ e ∈ Ptn.C04.Tree.info none (Ttndo.ketTree t), (opKids e.1).Perm e.2.2) :
+    ∃ binds, Ttndo.ttndoTtnoExpectationValue (Ttndo.ttndoNetK (Ttndo.ketTree t))
+        (Ttndo.ttnoNetK (Ttndo.ketTree t) opKids) = some ⟨[], binds⟩ ∧
+      ∀ (dim : Leg → Nat),
+        (∀ p ∈ soSpec (Ttndo.ketTree t) ++ Ttndo.rootPairs (Ttndo.ketTree t), dim p.1 = dim p.2) →
+        ∀ (e K O B : Expr Leg R) (rv : Asg Leg → R),
+        Ttndo.TtnoProgram (Ttndo.ketTree t) binds e K O B rv →
+        ∀ σ, e.eval dim σ = sumPairs dim (Ttndo.rootPairs (Ttndo.ketTree t)) (fun τ => rv τ *
+          sumPairs dim (Ttndo.physOuts (Ttndo.ketTree t)) (fun ρ =>
+            sumPairs dim (Ttndo.physIns (Ttndo.ketTree t)) (fun π => K.eval dim π * O.eval dim π) ρ *
+              B.eval dim ρ) τ) σ := by
+  obtain ⟨binds, hrun, hb⟩ := ttndo_ttno_graph t hnd opKids hperm
+  exact ⟨binds, hrun, fun dim hd e K O B rv h σ => h.value hb dim hd σ⟩
+
+open Ptn.C04 Ptn.Ein in
+/-- **… and on the TTNDO of `from_ttns` this is `Σ ψ' O ψ` for every root bond dimension ≥ 1**: identity root
+tensor and padded root bond, as in `trace_value_padded_root`. -/
+theorem ttndo_ttno_value_padded_root {R : Type} [CommSemiring R] (t : Ptn.C04.Tree) (hnd : t.ids.Nodup)
+    (opKids : Nat → List Nat)
+    (hperm : ∀ e ∈ Ptn.C04.Tree.info none (Ttndo.ketTree t), (opKids e.1).Perm e.2.2) :
+    ∃ binds, Ttndo.ttndoTtnoExpectationValue (Ttndo.ttndoNetK (Ttndo.ketTree t))
+        (Ttndo.ttnoNetK (Ttndo.ketTree t) opKids) = some ⟨[], binds⟩ ∧
+      ∀ (dim : Leg → Nat),
+        (∀ p ∈ soSpec (Ttndo.ketTree t) ++ Ttndo.rootPairs (Ttndo.ketTree t), dim p.1 = dim p.2) →
+        ∀ (e K O B : Expr Leg R),
+        Ttndo.TtnoProgram (Ttndo.ketTree t) binds e K O B Ttndo.eyeRoot →
+        Ttndo.PaddedRoot dim (Ttndo.ketTree t) K B →
+        ∀ σ, e.eval dim σ =
+          sumPairs dim (Ttndo.physOuts (Ttndo.ketTree t)) (fun ρ =>
+            sumPairs dim (Ttndo.physIns (Ttndo.ketTree t)) (fun π => K.eval dim π * O.eval dim π) ρ *
+              B.eval dim ρ)
+            (upd (upd σ (Leg.gKet (Ttndo.ketTree t).id 0) 0) (Leg.gBra (Ttndo.ketTree t).id 0) 0) := by
+  obtain ⟨binds, hrun, hb⟩ := ttndo_ttno_graph t hnd opKids hperm
+  exact ⟨binds, hrun, fun dim hd e K O B h hp σ => h.value_padded hb dim hd hp σ⟩
+
+open Ptn.C04 Ptn.Ein Ttndo.Demo in
+/-- non-vacuity: the `tensordot` calls of `ttndo_ttno_expectation_value` on the tree `0 — 1` with a TTNO whose
+tensors read all their legs -/
+example : (∀ e ∈ Ptn.C04.Tree.info none (Ttndo.ketTree st), (opKids e.1).Perm e.2.2) ∧
+    Ttndo.ttndoTtnoExpectationValue (Ttndo.ttndoNetK (Ttndo.ketTree st))
+      (Ttndo.ttnoNetK (Ttndo.ketTree st) opKids) = some ⟨[], Ttndo.teBinds (Ttndo.ketTree st)⟩ ∧
+    (∀ p ∈ soSpec (Ttndo.ketTree st) ++ Ttndo.rootPairs (Ttndo.ketTree st), dim p.1 = dim p.2) ∧
+    Ttndo.TtnoProgram (Ttndo.ketTree st) (Ttndo.teBinds (Ttndo.ketTree st)) teProg K O B Ttndo.eyeRoot ∧
+    Ttndo.PaddedRoot dim (Ttndo.ketTree st) K B :=
+  ⟨opKids_perm, ttno_run, dims_ok, ttno_hyps, padded⟩
+
+open Ptn.C04 Ptn.Ein Ttndo.Demo in
+/-- … and both sides of the conclusion are the integer 16274 -/
+example : teProg.eval dim (fun _ => 0) = 16274 ∧
+    sumPairs dim (Ttndo.physOuts (Ttndo.ketTree st)) (fun ρ =>
+      sumPairs dim (Ttndo.physIns (Ttndo.ketTree st)) (fun π => K.eval dim π * O.eval dim π) ρ * B.eval dim ρ)
+      (fun _ => 0) = 16274 := by
+  decide
 
 end Ptn.C16
